@@ -23,6 +23,8 @@ pub enum Consume {
     All,
     /// read to EOF and keep reading
     AllAndMore,
+    /// exactly size() bytes and not one read more (read_exact / take(size)): the consumer never sees Ok(0)
+    Exact,
 }
 
 #[derive(Serialize, Deserialize, Clone, Debug, PartialEq)]
@@ -65,6 +67,7 @@ fn consume_entry(f: &mut zip::read::ZipFile<'_>, how: &Consume, bufs: &[u32]) ->
         Consume::One => 1,
         Consume::K(k) => *k,
         Consume::AllButOne => size.saturating_sub(1),
+        Consume::Exact => size,
         Consume::All | Consume::AllAndMore => u64::MAX,
     };
     if want == u64::MAX {
@@ -173,12 +176,13 @@ impl Scenario for Stream {
             Source::Built(l)
         };
         let consume = (0..8)
-            .map(|_| match r.below(7) {
+            .map(|_| match r.below(8) {
                 0 => Consume::Nothing,
                 1 => Consume::One,
                 2 => Consume::K(r.size(mc)),
                 3 => Consume::AllButOne,
                 4 => Consume::AllAndMore,
+                5 => Consume::Exact,
                 _ => Consume::All,
             })
             .collect();
@@ -307,6 +311,7 @@ impl Scenario for Stream {
                             Consume::One => 1.min(rd.len()),
                             Consume::K(k) => (k as usize).min(rd.len()),
                             Consume::AllButOne => rd.len().saturating_sub(1),
+                            Consume::Exact => (m.size as usize).min(rd.len()),
                             _ => rd.len(),
                         };
                         if d.len() != want_len || d[..] != rd[..want_len] {
@@ -465,6 +470,7 @@ fn want_of(how: &Consume, size: u64) -> u64 {
         Consume::One => 1,
         Consume::K(k) => *k,
         Consume::AllButOne => size.saturating_sub(1),
+        Consume::Exact => size,
         Consume::All | Consume::AllAndMore => u64::MAX,
     }
 }
@@ -553,11 +559,12 @@ impl Scenario for StreamHuge {
             }
         }
         let consume = (0..4)
-            .map(|_| match r.below(6) {
+            .map(|_| match r.below(7) {
                 0 => Consume::Nothing,
                 1 => Consume::One,
                 2 => Consume::K(r.below(1 << 20) + 1),
                 3 => Consume::AllButOne,
+                4 => Consume::Exact,
                 _ => Consume::All,
             })
             .collect();
